@@ -165,6 +165,9 @@ def cases(tier, seed=0):
             out.append(Block(ls=list(ls), Ks=ones, Ms=ones, exps=_exps(ls, 1 + seed, ones)))
         out.append(Block(ls=[1, 0, 0, 0], Ks=[2, 1, 1, 1], Ms=[1, 1, 2, 1]))
         out.append(Block(ls=[0, 0, 1, 0], Ks=[1, 2, 1, 1], Ms=[1, 1, 1, 2], exps=_exps((0, 0, 1, 0), 2, [1, 2, 1, 1])))
+        # generalized shells on both members of a pair, in increasing and decreasing angular momentum
+        out.append(Block(ls=[0, 1, 0, 0], Ks=[1, 1, 1, 1], Ms=[2, 2, 1, 1], exps=_exps((0, 1, 0, 0), 4 + seed, ones)))
+        out.append(Block(ls=[1, 0, 0, 1], Ks=[1, 1, 1, 1], Ms=[2, 1, 2, 2], exps=_exps((1, 0, 0, 1), 5 + seed, ones)))
         out.append(Block(ls=[1, 1, 0, 0], Ks=ones, Ms=ones, geom="coincident"))
         out.append(Block(ls=[1, 0, 1, 0], Ks=ones, Ms=ones, geom="pairs"))
         out.append(Conventions(ls=[0, 1], types="cc", Ks=[1, 1], Ms=[1, 1]))
@@ -187,6 +190,9 @@ def cases(tier, seed=0):
                 out.append(Block(ls=list(ls), Ks=[2, 1, 1, 2], Ms=[1, 2, 1, 1]))
             else:
                 out.append(Block(ls=list(ls), Ks=[2, 1, 1, 2], Ms=[1, 2, 1, 1], exps=_exps(ls, 3 + seed, [2, 1, 1, 2])))
+        out.append(Block(ls=[0, 1, 0, 0], Ks=[1, 1, 1, 1], Ms=[2, 2, 1, 1], exps=_exps((0, 1, 0, 0), 4 + seed, ones)))
+        out.append(Block(ls=[1, 0, 0, 1], Ks=[1, 1, 1, 1], Ms=[2, 1, 2, 2], exps=_exps((1, 0, 0, 1), 5 + seed, ones)))
+        out.append(Block(ls=[0, 2, 1, 2], Ks=[1, 1, 1, 1], Ms=[2, 2, 2, 2], exps=_exps((0, 2, 1, 2), 6 + seed, ones)))
         for geom in ("coincident", "pairs"):
             out.append(Block(ls=[1, 1, 1, 1], Ks=ones, Ms=ones, geom=geom))
             out.append(Block(ls=[2, 1, 1, 0], Ks=ones, Ms=ones, geom=geom, exps=_exps((2, 1, 1, 0), 5, ones)))
